@@ -14,10 +14,15 @@ Z3_TIMEOUT_MS = 20000
 # (decided / inconclusive) does not depend on machine load; the wall-clock timeout is only a backstop.
 RLIMIT_PER_MS = int(os.environ.get("VERIF_RLIMIT_PER_MS", "0"))       # 0 = wall-clock budgets (default until calibrated)
 WALL_BACKSTOP = 5
+# Memory cap per query (z3's cooperative "max_memory", MB): nonlinear queries can otherwise grow to 10 GB per worker
+# within a 60 s timeout; a query that hits the cap answers unknown and is reported inconclusive like a timeout.
+MAXMEM_MB = int(os.environ.get("VERIF_Z3_MAXMEM_MB", "2000"))
 
 
 def _budget(s, timeout_ms):
     t = timeout_ms or Z3_TIMEOUT_MS
+    if MAXMEM_MB > 0:
+        s.set("max_memory", MAXMEM_MB)
     if RLIMIT_PER_MS > 0:
         s.set("rlimit", int(t) * RLIMIT_PER_MS)
         s.set("timeout", int(t) * WALL_BACKSTOP)
@@ -307,7 +312,7 @@ def hyps_satisfiable(hyps, timeout_ms=3000):
         except z3.Z3Exception:
             break
     s = z3.Solver()
-    s.set("timeout", timeout_ms)
+    _budget(s, timeout_ms)
     s.add(*hyps)
     r = _check(s)
     return "sat" if r == z3.sat else "unsat" if r == z3.unsat else "n/a"
